@@ -64,6 +64,31 @@ fire('bind-conditional-reset', ['C03'], ['C03.U1'],
                     if not isinstance(self._value, Variable):
                         self._is_bound = False"""))
 
+# context-manager class instead of try/finally (expanded by the model when it is a plain one)
+_CM = """class _Binding(object):
+    def __init__(self, variable):
+        self._variable = variable
+    def __enter__(self):
+        self._variable._is_bound = True
+        return self._variable
+    def __exit__(self, exc_type, exc_value, exc_tb):
+        %s
+        return False
+
+class Variable(IUnifiable):"""
+_CM_USE = ("""                self._is_bound = True
+                try:
+                    yield False
+                finally:
+                    self._is_bound = False""", """                with _Binding(self):
+                    yield False""")
+silent('bind-context-manager-class', ['C02', 'C03', 'C04', 'C13', 'C15', 'C17'],
+       (E, "class Variable(IUnifiable):", _CM % "self._variable._is_bound = False"), (E,) + _CM_USE)
+fire('bind-context-manager-class-no-reset', ['C03'], ['C03.U1', 'C03.U2'],
+     (E, "class Variable(IUnifiable):", _CM % "pass"), (E,) + _CM_USE)
+fire('bind-context-manager-class-swallows', ['C03'], ['C03'],
+     (E, "class Variable(IUnifiable):", (_CM % "self._variable._is_bound = False").replace("return False", "return True")), (E,) + _CM_USE)
+
 fire('bind-outside-variable', ['C03', 'C02'], ['C03.U2a', 'C02.B1a'],
      (E, """    if isinstance(arg1, IUnifiable):
         return arg1.unify(arg2)""",
